@@ -378,7 +378,7 @@ def gen_next(rng, live, cfg, prev=None, focus=None):
     if k == "new_space":
         nested = rng.random() < 0.35
         parent = rng.choice([p for p in paths if "." not in p] or ["-"]) if nested else "-"
-        pool = W.CHILD if parent != "-" else W.TOP
+        pool = W.CHILD if parent != "-" else cfg.get("top_names", W.TOP)
         taken = set(live.space(parent).spaces) if parent != "-" else set(live.m.spaces)
         free = [n for n in pool if n not in taken]
         nm = rng.choice(free) if free and rng.random() < 0.9 else rng.choice(pool)
@@ -1007,6 +1007,40 @@ MOTIFS_EXT = [
 ]
 
 
+# Asymmetric inheritance graphs: a space is reached from the top by paths of DIFFERENT lengths, and has sub spaces
+# of its own below the join.  Whatever order a re-derivation visits the spaces in (breadth-first over the edges,
+# topological, creation order), somewhere in these shapes a sub space is visited before one of its bases - a
+# re-derivation step whose outcome depends on what a not-yet-updated base still holds shows here and nowhere in
+# chains and symmetric diamonds.  Used by the properties that ask for them (cfg["extra_motifs"] = MOTIFS_DAG: C03, C13);
+# the members (a cells, a reference, a cells reading the reference) are defined at the very top or one below it.
+def dag_motif(edges, members_in="A", extra=()):
+    """spaces in the order given by `edges` = [(name, [bases])]; the members are defined in `members_in` AFTER the
+    whole graph exists (so that they arrive in every sub space by derivation), then `extra`"""
+    ops = [["new_space", "-", n, list(bs)] for n, bs in edges]
+    ops += [["new_cells", members_in, "f", F(0, 1)], ["set_ref", members_in, "s", 2],
+            ["new_cells", members_in, "g", F(2, 1, "g", "s")]]
+    return ops + [list(o) for o in extra]
+
+
+MOTIFS_DAG = [
+    # two paths of lengths 2 and 3 from the top A to the join E, a sub space G below the join with a cells of
+    # its own that calls a derived one:   A -> B -> E,  A -> C -> D -> E,  E -> G
+    dag_motif([("A", []), ("B", ["A"]), ("C", ["A"]), ("D", ["C"]), ("E", ["B", "D"]), ("G", ["E"])],
+              extra=[["new_cells", "G", "h", F(1, 1, "f")]]),
+    # the same below a top space that defines nothing: T -> A (the members live in A), so that detaching A from
+    # T or deleting T re-derives the whole graph without taking a definer away, and detaching / deleting A does;
+    # the long path is declared FIRST in the join, a second join H(E, B) and a chain G -> K below
+    dag_motif([("T", []), ("A", ["T"]), ("B", ["A"]), ("C", ["A"]), ("D", ["C"]), ("E", ["D", "B"]), ("G", ["E"]),
+               ("K", ["G"])],
+              extra=[["new_cells", "T", "k", F(0, 4)], ["new_cells", "K", "h", F(1, 1, "g")]]),
+    # three paths of lengths 1, 2, 3 to the join, the join's sub space also derives from the short path directly
+    #   A -> E (direct), A -> B -> E, A -> C -> D -> E;  G(E), H(G, B)
+    dag_motif([("A", []), ("B", ["A"]), ("C", ["A"]), ("D", ["C"]), ("E", ["D", "B", "A"]), ("G", ["E"]),
+               ("H", ["G", "B"])],
+              members_in="A", extra=[["set_formula", "C", "f", F(0, 2)], ["new_cells", "H", "h", F(1, 1, "f")]]),
+]
+
+
 def base_motifs(cfg):
     return MOTIFS + MOTIFS_EXT if cfg and cfg.get("ext") else MOTIFS
 
@@ -1214,7 +1248,7 @@ def enumerate_edits(ctx, out, prop, hooks_factory, cfg, stats, quick_per_motif=1
         if not m:
             continue
         programs.append((mi, m, False))
-        if cfg.get("uncached_variants"):
+        if cfg.get("uncached_variants") and (ctx.tier == "thorough" or m not in MOTIFS_DAG):
             for vi, v in enumerate(uncached_variants(m)):
                 programs.append(("%s.u%d" % (mi, vi), v, True))
     for mi, m, variant in programs:
@@ -1249,18 +1283,21 @@ def enumerate_edits(ctx, out, prop, hooks_factory, cfg, stats, quick_per_motif=1
             edits = [e for e in edits if e[0] != "set_value"]
         extra = isinstance(mi, int) and mi >= nbase
         per = quick_per_motif if not variant else 4
-        if extra and cfg.get("extra_light"):
+        # the asymmetric inheritance graphs are large (7-8 spaces): in the quick tier the edits that take a definer or a
+        # base relation away (cfg["enum_always"]) and a small sample of the others, no pairs, no uncached variants
+        dag = m in MOTIFS_DAG and ctx.tier != "thorough"
+        if (extra and cfg.get("extra_light")) or dag:
             per = 6
         chosen = edits if ctx.tier == "thorough" else rng.sample(edits, min(len(edits), per))
         chosen = chosen + [e for e in refed if e not in chosen]     # extended motifs: every edit of an existing reference
         chosen = chosen + [e for e in edits if e[0] in cfg.get("enum_always", ()) and e not in chosen]
-        if extra:
+        if extra and not dag:
             # a property's own motifs: also every edit of the kinds it names (e.g. adding ONE base anywhere)
             chosen = chosen + [e for e in edits if e not in chosen and any(pred(e) for pred in cfg.get("extra_always", ()))]
         seqs = [[e] for e in chosen]
         if variant:
             stats["uncached_variant_programs"] += 1
-        light = (variant or (extra and cfg.get("extra_light"))) and ctx.tier != "thorough"
+        light = (variant or dag or (extra and cfg.get("extra_light"))) and ctx.tier != "thorough"
         for _ in range(0 if light else pairs_per_motif * (4 if ctx.tier == "thorough" else 1)):
             seqs.append([rng.choice(edits), ["evalall"], rng.choice(edits)])
         # structured pairs: a value edit / clear of one element, then a reference or base edit
